@@ -247,6 +247,8 @@ class MiniEval:
             if isinstance(e.op, ast.Add) and ((isinstance(l, tuple) and isinstance(r, tuple)) or
                                               (isinstance(l, list) and isinstance(r, list))):
                 return l + r
+            if isinstance(e.op, ast.Add) and isinstance(l, str) and isinstance(r, str):
+                return MSG if MSG in (l, r) else l + r      # message texts are opaque
             if isinstance(l, bool) or isinstance(r, bool) or not isinstance(l, (int, float)) \
                     or not isinstance(r, (int, float)):
                 raise _Fault('TypeError')
@@ -395,6 +397,14 @@ class MiniEval:
         if isinstance(e, ast.Attribute) and isinstance(self.env.get(norm(e.value)), Obj) and \
                 e.attr in self.env[norm(e.value)].attrs:
             return self.env[norm(e.value)].attrs[e.attr]
+        if isinstance(e, ast.Attribute) and isinstance(e.value, ast.Attribute) and norm(e) not in self.env:
+            root_ = e.value
+            while isinstance(root_, ast.Attribute):
+                root_ = root_.value
+            if isinstance(root_, ast.Name) and isinstance(self.env.get(root_.id), Obj):
+                base_ = self.ev(e.value)
+                if isinstance(base_, Obj) and e.attr in base_.attrs:
+                    return base_.attrs[e.attr]
         if isinstance(e, ast.Call) and norm(e.func) in self.env and callable(self.env[norm(e.func)]):
             args_, kws_ = self._call_args(e)
             if getattr(self.env[norm(e.func)], 'wants_me', False):
@@ -404,7 +414,10 @@ class MiniEval:
             except (_Ret, _Raised, _Fault, _Break, _Continue, AnalysisError):
                 raise
             except Exception as exc:        # an environment callable modelling a failing user function
-                raise _Fault(type(exc).__name__) from None
+                flt_ = _Fault(type(exc).__name__)
+                if isinstance(getattr(exc, 'mini_obj', None), Obj):
+                    flt_.obj = exc.mini_obj
+                raise flt_ from None
         if isinstance(e, ast.Call) and self.resolve is not None and self.depth < 3 and not e.keywords \
                 and not any(isinstance(a, ast.Starred) for a in e.args):
             fn = self.resolve(norm(e.func))
@@ -805,7 +818,8 @@ class MiniEval:
                         if h is None:
                             raise
                         if h.name:
-                            self.env[h.name] = f'<{exc.name}>'
+                            # a failing stand-in may hand over an object for `except ... as err`
+                            self.env[h.name] = getattr(exc, 'obj', None) or f'<{exc.name}>'
                         self._exc_stack.append(exc)
                         try:
                             self.block(h.body)
